@@ -426,10 +426,15 @@ def run_for(prop: str, ctx: Ctx, max_variants: int = 1200) -> dict:
         rnd.shuffle(twins)
         rnd.shuffle(breaks)
         jobs = twins[:max_variants // 3] + breaks[:max_variants - min(len(twins), max_variants // 3)]
+    # stored corpora: seeded defects written against this property (must be reported) and
+    # behaviour-preserving refactorings of files this property consults (must stay silent),
+    # replayed in memory on the current sources
+    corpus_jobs, skipped = _corpus_jobs(prop, ctx)
     results = []
     with ProcessPoolExecutor(max_workers=min(16, os.cpu_count() or 4)) as ex:
         for r in ex.map(_run_one, jobs, chunksize=4):
             results.append(r)
+        corpus_results = list(ex.map(_run_overlay, corpus_jobs, chunksize=1))
     breaks = [r for r in results if r[0] == 'break']
     twins = [r for r in results if r[0] == 'twin']
     killed = [r for r in breaks if r[3] in ('violation', 'analysis-error')]
@@ -451,6 +456,74 @@ def run_for(prop: str, ctx: Ctx, max_variants: int = 1200) -> dict:
         'survivor_sample': [r[1] for r in survivors][:60],
         'functions_mutated': sum(len(v) for v in targets.values()),
     }
-    print('selftest %s: %d breaking variants, %d flagged (%d by violation), %d survivors; %d twins, %d silent' % (
-        prop, len(breaks), len(killed), stats['killed_by_violation'], len(survivors), len(twins), stats['twins_silent']))
+    seeds = [r for r in corpus_results if r[0] == 'seed']
+    refacs = [r for r in corpus_results if r[0] == 'refactoring']
+    for r in seeds:
+        if r[2] == 'silent':
+            print('SELFTEST-GAP stored seeded defect %s is not reported by the %s check' % (r[1], prop))
+    import json as _json
+    from .core import VERIF as _V
+    known_lim = set()
+    for r in refacs:
+        try:
+            if _json.load(open(os.path.join(_V, 'refactorings', r[1], 'meta.json'))).get('known_limitation'):
+                known_lim.add(r[1])
+        except Exception:
+            pass
+        if r[2] != 'silent':
+            print('%s stored behaviour-preserving refactoring %s raises %s: %s' % (
+                'SELFTEST-NOTE known limitation:' if r[1] in known_lim else 'SELFTEST-GAP', r[1], r[2], r[3]))
+    stats.update({
+        'seeded_defects_replayed': len(seeds), 'seeded_defects_reported': len([r for r in seeds if r[2] != 'silent']),
+        'refactorings_replayed': len(refacs), 'refactorings_silent': len([r for r in refacs if r[2] == 'silent']),
+        'refactorings_known_limitation': sorted(known_lim & set(r[1] for r in refacs if r[2] != 'silent')),
+        'corpus_patches_not_applicable_to_current_tree': skipped,
+    })
+    print('selftest %s: %d breaking variants, %d flagged (%d by violation), %d survivors; %d twins, %d silent; '
+          '%d stored seeds, %d reported; %d stored refactorings, %d silent' % (
+              prop, len(breaks), len(killed), stats['killed_by_violation'], len(survivors), len(twins), stats['twins_silent'],
+              len(seeds), stats['seeded_defects_reported'], len(refacs), stats['refactorings_silent']))
     return stats
+
+
+def _corpus_jobs(prop, ctx):
+    import glob
+    import json
+    from . import patching
+    from .core import VERIF
+    jobs, skipped = [], 0
+    srcs = {m.relpath: m.source for m in ctx.repo.modules.values()}
+    for kind, pattern in (('seed', 'seeded/*'), ('refactoring', 'refactorings/*')):
+        for d in sorted(glob.glob(os.path.join(VERIF, pattern))):
+            pf, mf = os.path.join(d, 'patch.diff'), os.path.join(d, 'meta.json')
+            if not (os.path.exists(pf) and os.path.exists(mf)):
+                continue
+            meta = json.load(open(mf))
+            diff = open(pf).read()
+            files = [p for p, _ in patching.parse(diff)]
+            if kind == 'seed' and meta.get('breaks') != prop:
+                continue
+            if kind == 'refactoring' and not any(f in ctx.consulted for f in files):
+                continue
+            try:
+                overlay = patching.apply({f: srcs[f] for f in files if f in srcs}, diff)
+            except Exception:
+                skipped += 1
+                continue
+            jobs.append((prop, kind, os.path.basename(d), overlay))
+    return jobs, skipped
+
+
+def _run_overlay(args):
+    prop, kind, ident, overlay = args
+    try:
+        mod = importlib.import_module('onlsa.rules.%s' % prop.lower())
+        ctx = Ctx(prop, 'thorough', overlay=overlay)
+        mod.check(ctx)
+        known = load_known()
+        new = [f for f in ctx.findings if f.ident() not in known]
+        return (kind, ident, 'violation' if new else 'silent', (new[0].rule + ': ' + new[0].message[:200]) if new else '')
+    except AnalysisError as e:
+        return (kind, ident, 'analysis-error', str(e)[:200])
+    except Exception as e:  # pragma: no cover
+        return (kind, ident, 'internal-error', '%s: %s' % (type(e).__name__, str(e)[:200]))
